@@ -301,7 +301,10 @@ func (e *Encoder) applyContract(fc *FuncContract, callee *ssa.Function, args []V
 	}
 	// effects
 	switch {
-	case fc.Pure || (fc.HasMod && len(fc.Modifies) == 0):
+	case fc.Pure:
+	case fc.HasMod && len(fc.Modifies) == 0:
+		// writes nothing that existed, but may allocate (a constructor): objects it returns can be fresh
+		e.bumpCtr(st)
 	case fc.HasMod:
 		ok := true
 		for i, m := range fc.Modifies {
@@ -341,6 +344,11 @@ func (e *Encoder) applyContract(fc *FuncContract, callee *ssa.Function, args []V
 			continue
 		}
 		c.assume(implies(pc, s))
+	}
+	if (fc.Trusted || fc.Extern) && len(fc.Ensures) > 0 && e.primary {
+		// vacuity guard: what a trusted contract lets us assume must not contradict what is already known
+		o := e.addObl("cover-call "+sname, "the assumed postconditions of trusted "+callee.Name()+" are consistent with the calling context", pc, "false")
+		o.IsCover = true
 	}
 	e.usedContracts[fc.Key] = true
 	return result
@@ -760,7 +768,10 @@ func (e *Encoder) applyIfaceContract(fc *FuncContract, cm *ssa.CallCommon, recv 
 		e.addObl("pre@"+sname, r.Text, pc, s)
 	}
 	switch {
-	case fc.Pure || (fc.HasMod && len(fc.Modifies) == 0):
+	case fc.Pure:
+	case fc.HasMod && len(fc.Modifies) == 0:
+		// writes nothing that existed, but may allocate (a constructor): objects it returns can be fresh
+		e.bumpCtr(st)
 	case fc.HasMod:
 		for i, m := range fc.Modifies {
 			if err := e.havocMod(env, m, st); err != nil {
